@@ -99,7 +99,7 @@ func argBattery() []argCase {
 func (r *Runner) args(op *Op) {
 	res := [][]interface{}{}
 	for _, c := range argBattery() {
-		cls, n, and, msg := "ok", 0, "ok", ""
+		cls, n, and, msg, orc := "ok", 0, "ok", "", "ok"
 		func() {
 			defer func() {
 				if p := recover(); p != nil {
@@ -120,6 +120,24 @@ func (r *Runner) args(op *Op) {
 			if c.Kind != "ok" && len(o2) > 0 {
 				and = "objects"
 			}
+			// the same triple joined to a valid search with Or, in both spellings: a query one operand of which cannot
+			// be evaluated is an error, it never hands back the other operand's objects
+			for i, s3 := range []*sod.Search{
+				r.db.Search(r.proto(), "K", ">=", int64(-1<<62)).Or(c.Field, c.Op, c.Val),
+				r.db.Search(r.proto(), "K", ">=", int64(-1<<62)).Operation([]string{"or", "||", "OR"}[len(res)%3], c.Field, c.Op, c.Val),
+			} {
+				o3, err3 := s3.Collect()
+				k := classify(err3)
+				if c.Kind != "ok" && len(o3) > 0 {
+					k = "objects"
+				}
+				if err3 == nil && s3.Err() != nil {
+					k = "inconsistent-err"
+				}
+				if i == 0 || k != "ok" {
+					orc = k
+				}
+			}
 			// One / Len / Delete on a search that could not be evaluated
 			if err != nil {
 				if _, e := r.db.Search(r.proto(), c.Field, c.Op, c.Val).One(); e == nil {
@@ -130,7 +148,7 @@ func (r *Runner) args(op *Op) {
 				}
 			}
 		}()
-		res = append(res, []interface{}{c.Tag, c.Op, c.Kind, cls, n, and, msg})
+		res = append(res, []interface{}{c.Tag, c.Op, c.Kind, cls, n, and, msg, orc})
 	}
 	_ = sod.ErrCasting
 	r.emit(ev{"ev": "args", "res": res})
